@@ -653,6 +653,18 @@ theorem C05_recoveryScan_stays_in_record (pb : Bool) (pre a b : List Byte) (eof 
   simp only [IS.clear, IS.good, Bool.not_false, Bool.and_self, Bool.not_true, Bool.false_eq_true, if_false, h, if_true,
     Nat.zero_add]
 
+/-- … and in full generality: the scan in the shape /repo has since `fixes/C05-19` (first `;`, put back) **never reads past the
+first `;`** — for any bytes `a` before it (parentheses, apostrophes, white space, comments), any character `c` the read gave up
+on and any stream state, fuel `|a| + 2` suffices and it ends with that `;` next on a good stream.  This is "stays in the
+record" for the scan itself: the first `;` is never behind the end of the record; when `c` was the record's own `;` the first
+`;` of what follows is the end of the next record at the latest (the one-record slip). -/
+theorem C05_recoveryScan_never_passes_semicolon (pre a b : List Byte) (eof fail sk : Bool) (c : Byte)
+    (ha : ∀ x ∈ a, x ≠ chSemi) :
+    ∃ p' l' st', recoveryScan true false true (a.length + 2) ⟨pre, a ++ chSemi :: b, eof, fail, sk⟩ c =
+      .ok ⟨⟨p', chSemi :: b, false, false, sk⟩, 1, l', st'⟩ := by
+  unfold recoveryScan
+  exact recoverOuter_first_semi b sk (a.length + 2) a pre c false 0 0 ha (Nat.le_refl _)
+
 /-- Without the end-of-record test (the scan as it stood before `fixes/C05-14`): when no `)` follows, the scan reads to the
 end of the input — `|rest| + 2` steps for every record that ends this way, however short the record is.  With pass 2
 resuming behind the record's `;` (`STEPfile::ReadInstance`), `n` such records cost `~ n²/2` record lengths. -/
